@@ -3,6 +3,7 @@ package main
 // Evaluation of contract expressions over executor states.
 
 import (
+	"os"
 	"fmt"
 	"go/constant"
 	"go/types"
@@ -1027,7 +1028,114 @@ func (c *EvalCtx) call(e *ECall) Value {
 		}
 		return Num(0)
 	case "tainted":
-		return c.e.taintOf(c.st, c.eval(arg(0)))
+		mask := uint8(127)
+		if len(e.Args) == 2 {
+			k, _ := c.term(arg(1)).Int64()
+			mask = uint8(k)
+		}
+		return Bool(c.e.taintBits(c.st, c.eval(arg(0)), 0)&mask != 0)
+	case "taintkeys":
+		// as a goal: per-key contents of maps are not tracked; the summary is assumed
+		// (and tested by a bounded probe where one is registered)
+		c.e.noteAssumption("taint-key summary assumed, not proved: " + exprStr(e))
+		return TTrue
+	case "untainted":
+		if os.Getenv("TQV_DEBUG") != "" {
+			for i := range e.Args {
+				v := c.eval(arg(i))
+				fmt.Fprintf(os.Stderr, "untainted arg %d: %T bits=%d\n", i, v, c.e.taintBits(c.st, v, 0))
+				if sl, ok := v.(SliceV); ok && sl.Obj != nil {
+					fmt.Fprintf(os.Stderr, "   slice len=%s obj=%v content=%T %+v\n", sl.Len, sl.Obj, c.st.heap[sl.Obj], c.st.heap[sl.Obj])
+				}
+			}
+		}
+		for i := range e.Args {
+			if c.e.taintBits(c.st, c.eval(arg(i)), 0)&^128 != 0 {
+				return TFalse
+			}
+		}
+		return TTrue
+	case "taintkind":
+		k, _ := c.term(arg(1)).Int64()
+		return Bool(c.e.taintBits(c.st, c.eval(arg(0)), 0)&uint8(k) != 0)
+	case "covers":
+		// covers(obscure, m): every secret-bearing key of map m is among the literal strings of obscure
+		m, ok := c.eval(arg(1)).(MapV)
+		if !ok {
+			return c.fail("covers: second argument must be a map")
+		}
+		if m.Obj == nil {
+			return TTrue
+		}
+		lits, ok := c.literalElems(c.eval(arg(0)))
+		if !ok {
+			return TFalse
+		}
+		for k := range c.st.taintKey[m.Obj] {
+			if !lits[k] {
+				return TFalse
+			}
+		}
+		return TTrue
+	case "nolit":
+		// nolit(keys, "a", "b"): none of the listed strings is an element of the slice keys
+		sl, ok := c.eval(arg(0)).(SliceV)
+		if !ok {
+			return c.fail("nolit: first argument must be a slice of strings")
+		}
+		var want []string
+		for i := 1; i < len(e.Args); i++ {
+			s, ok := c.eval(arg(i)).(StrV)
+			if !ok || s.Lit == nil {
+				return c.fail("nolit: arguments must be string literals")
+			}
+			want = append(want, *s.Lit)
+		}
+		if sl.Obj == nil {
+			return TTrue
+		}
+		if lits, ok := c.literalElems(sl); ok {
+			for _, w := range want {
+				if lits[w] {
+					return TFalse
+				}
+			}
+			return TTrue
+		}
+		for _, w := range want {
+			if !c.st.sliceExcl[sl.Obj][w] {
+				return TFalse
+			}
+		}
+		return TTrue
+	case "avoids":
+		// avoids(keys, m): none of the literal strings of keys names a secret-bearing key of map m
+		m, ok := c.eval(arg(1)).(MapV)
+		if !ok {
+			return c.fail("avoids: second argument must be a map")
+		}
+		if m.Obj == nil || len(c.st.taintKey[m.Obj]) == 0 {
+			return TTrue
+		}
+		kv := c.eval(arg(0))
+		lits, ok := c.literalElems(kv)
+		if !ok {
+			if sl, isSl := kv.(SliceV); isSl && sl.Obj != nil {
+				for k := range c.st.taintKey[m.Obj] {
+					if !c.st.sliceExcl[sl.Obj][k] {
+						return TFalse
+					}
+				}
+				return TTrue
+			}
+			return TFalse
+		}
+		for k := range lits {
+			if c.st.taintKey[m.Obj][k] {
+				return TFalse
+			}
+		}
+		return TTrue
 	}
 	if sf, ok := c.e.specFuns[e.Fun]; ok {
 		if len(sf.Params) != len(e.Args) {
@@ -1308,6 +1416,43 @@ func (c *EvalCtx) assume(x Expr) {
 				return
 			}
 		}
+		if e.Fun == "tainted" && len(e.Args) >= 1 {
+			bits := uint8(1)
+			if len(e.Args) == 2 {
+				k, _ := c.term(e.Args[1]).Int64()
+				bits = uint8(k)
+			}
+			c.taintExpr(e.Args[0], bits)
+			return
+		}
+		if e.Fun == "nolit" && len(e.Args) >= 2 {
+			if sl, ok := c.eval(e.Args[0]).(SliceV); ok && sl.Obj != nil {
+				ex := map[string]bool{}
+				for k := range c.st.sliceExcl[sl.Obj] {
+					ex[k] = true
+				}
+				for _, ka := range e.Args[1:] {
+					if s, ok := c.eval(ka).(StrV); ok && s.Lit != nil {
+						ex[*s.Lit] = true
+					}
+				}
+				if c.st.sliceExcl == nil {
+					c.st.sliceExcl = map[*Obj]map[string]bool{}
+				}
+				c.st.sliceExcl[sl.Obj] = ex
+			}
+			return
+		}
+		if e.Fun == "taintkeys" && len(e.Args) >= 2 {
+			if m, ok := c.eval(e.Args[0]).(MapV); ok && m.Obj != nil {
+				for _, ka := range e.Args[1:] {
+					if s, ok := c.eval(ka).(StrV); ok && s.Lit != nil {
+						c.st.taintKeysAdd(m.Obj, *s.Lit)
+					}
+				}
+			}
+			return
+		}
 		if e.Fun == "fresh" && len(e.Args) == 1 {
 			// assumed freshness of a callee result: the backing object is new to the caller
 			switch s := c.eval(e.Args[0]).(type) {
@@ -1338,6 +1483,14 @@ func (c *EvalCtx) assume(x Expr) {
 				c.assume(&EBinary{"==>", e.X, rest})
 				return
 			}
+		}
+		if e.Op == "==>" && mentionsTaint(e.Y) {
+			// taint labels live in the executor, not in the solver: the consequent is applied
+			// unless the antecedent is definitely false (over-approximation of the labels)
+			if p := c.boolean(e.X); !p.IsFalse() {
+				c.assume(e.Y)
+			}
+			return
 		}
 		if e.Op == "==>" && c.pend != nil && c.needsStrong(e.Y) {
 			p := c.boolean(e.X)
@@ -1424,4 +1577,88 @@ func (e *Engine) isZeroValue(st *State, v Value) *Term {
 		return TFalse
 	}
 	return TFalse
+}
+
+// taintExpr labels the value denoted by x (a location, a result or a parameter).
+func (c *EvalCtx) taintExpr(x Expr, bits uint8) {
+	if l, ok := c.loc(x); ok {
+		switch {
+		case l.Ptr != nil:
+			c.e.storePtr(c.st, *l.Ptr, c.e.taintValue(c.st, c.e.loadPtr(c.st, *l.Ptr), bits))
+			return
+		case l.Var != "":
+			if v, ok := c.bind[l.Var]; ok {
+				nv := c.e.taintValue(c.st, v, bits)
+				c.bind[l.Var] = nv
+				if c.setVar != nil {
+					c.setVar(l.Var, nv)
+				}
+				return
+			}
+		}
+	}
+	c.e.taintValue(c.st, c.eval(x), bits)
+}
+
+// literalElems: the literal strings held by a (variadic) slice with concrete length.
+func (c *EvalCtx) literalElems(v Value) (map[string]bool, bool) {
+	out := map[string]bool{}
+	s, ok := v.(SliceV)
+	if !ok {
+		return nil, false
+	}
+	if s.Obj == nil {
+		return out, true
+	}
+	n, ok := s.Len.Int64()
+	if !ok || n > 64 {
+		return nil, false
+	}
+	av, ok := c.e.heapGet(c.st, s.Obj).(ArrV)
+	if !ok {
+		return nil, false
+	}
+	for i := int64(0); i < n; i++ {
+		el := av.get(c.e, c.st, Add(s.Off, Num(i)))
+		sv, isStr := el.(StrV)
+		if !isStr {
+			return nil, false
+		}
+		lit := sv.Lit
+		if lit == nil {
+			// literal strings stored into an SMT array lose their Go-level literal: recover
+			// short constants from the store chain
+			if str, ok := concreteString(sv); ok {
+				lit = &str
+			}
+		}
+		if lit == nil {
+			return nil, false
+		}
+		out[*lit] = true
+	}
+	return out, true
+}
+
+// concreteString reads back a string whose length and bytes are all constants.
+func concreteString(s StrV) (string, bool) {
+	n, ok := s.Len.Int64()
+	if !ok || n > 256 {
+		return "", false
+	}
+	b := make([]byte, n)
+	for i := int64(0); i < n; i++ {
+		t := Select(s.Arr, Add(s.Off, Num(i)))
+		k, ok := t.Int64()
+		if !ok {
+			return "", false
+		}
+		b[i] = byte(k)
+	}
+	return string(b), true
+}
+
+func mentionsTaint(x Expr) bool {
+	s := exprStr(x)
+	return strings.Contains(s, "tainted(") || strings.Contains(s, "taintkeys(") || strings.Contains(s, "nolit(")
 }
